@@ -1,7 +1,9 @@
 """C17 - high-compatibility mode enforces its restrictions and never leaks.
 
 R17.1 save / set / restore-on-every-exit of the mode flag in the context manager (CFG, exceptional edges included);
-      decorator form enters the same context manager.
+      decorator form enters the same context manager; a class-based manager that keeps the saved value on the instance
+      must be constructed per entry (directly in a `with`): an instance that is stored, returned or used as a decorator
+      is shared by overlapping entries.
 R17.2 single writer of the flag.            R17.3 every read of the flag is a live read inside a function body.
 R17.4 every function reading the flag has the shape "flag set => raise" (or is the file-set-number site);
       raise_or_warn call sites and soft enum converters are enumerated and sit on the build / write path.
